@@ -311,6 +311,32 @@ func (g *Gen) paintLine(w int, promptW int) string {
 
 type c04X struct {
 	IdleW int `json:"idle_w,omitempty"` // the terminal gets this width between the first and the second Readline call
+	Calls int `json:"calls,omitempty"` // Readline calls on the one Shell (no resize between them)
+}
+
+// genC04TypeAheadThenNewPrompt: a whole line and Return typed ahead (the bytes reach whatever read is open, the
+// cursor-position query's included), then a second call on the same Shell whose prompt has another width, typed
+// slowly: what the first call left in the terminal's queue or in the library must not move the second one's cursor.
+func genC04TypeAheadThenNewPrompt(g *Gen) *wire.Scenario {
+	sc := &wire.Scenario{Prop: "C04", Family: "paint-typeahead-two-calls"}
+	env := wire.Env{Mode: "emacs", Prompt: Pick(g, []string{"~ $ ", "> "}), PromptLater: Pick(g, []string{"/srv/www $ ", "a-much-longer-prompt> ", "$ "}), W: 80, H: g.Range(10, 30), NoDefaultHistory: true}
+	env.Inputrc = []string{"set history-autosuggest off", "set autocomplete off"}
+	sc.Env = env
+	first := ""
+	for i := 0; i < g.Range(2, 8); i++ {
+		first += string("abc d"[g.N(5)])
+	}
+	// one token: the line and its Return arrive together, whichever read is open
+	sc.Script = append(sc.Script, tok(first+"\r", "typed-ahead-line"))
+	for i := 0; i < g.Range(1, 6); i++ {
+		sc.Script = append(sc.Script, tok(string("xyz w"[g.N(5)]), "self-insert"))
+	}
+	sc.X = mustJSON(c04X{Calls: 2})
+	sc.Plan = wire.Plan{Policy: "seeded", Class: "S2", Seed: g.Seed()}
+	for i := 0; i < 7; i++ {
+		sc.Plans = append(sc.Plans, wire.Plan{Policy: "seeded", Class: "S2", Seed: g.Seed()})
+	}
+	return sc
 }
 
 // genC04TwoCalls: a line accepted, the terminal resized while the application is busy elsewhere (no call
@@ -350,6 +376,9 @@ func genC04TwoCalls(g *Gen) *wire.Scenario {
 func genC04(g *Gen, tier string, idx int) *wire.Scenario {
 	if idx%25 == 11 {
 		return genC04TwoCalls(g)
+	}
+	if idx%25 == 21 {
+		return genC04TypeAheadThenNewPrompt(g)
 	}
 	mode := Pick(g, []string{"emacs", "emacs", "vi"})
 	sc := &wire.Scenario{Prop: "C04", Family: "paint"}
@@ -568,11 +597,38 @@ func promptUpper(prompt string) []string {
 }
 
 func execC04(x *Ctx, sc *wire.Scenario) *wire.Result {
+	if len(sc.Plans) > 0 {
+		// the same keys under several delivery schedules, each judged like a scenario of its own
+		// (the first one that fails is the replay: one schedule)
+		total := okResult(sc)
+		for _, p := range append([]wire.Plan{sc.Plan}, sc.Plans...) {
+			one := *sc
+			one.Plan, one.Plans = p, nil
+			r := execC04(x, &one)
+			if r.Verdict == "violation" {
+				return r
+			}
+			for k, v := range r.Counters {
+				total.Counters[k] += v
+			}
+			total.Nontrivial = total.Nontrivial || r.Nontrivial
+			total.Steps += r.Steps
+			total.Sessions += r.Sessions
+		}
+		return total
+	}
 	res := okResult(sc)
 	hooks := sim.Hooks{}
 	var xx c04X
 	if len(sc.X) > 0 {
 		jsonInto(sc.X, &xx)
+	}
+	if xx.Calls > 1 {
+		hooks.Body = func(s *sim.Session, sh *readlineShell) {
+			for i := 0; i < xx.Calls; i++ {
+				s.Readline(sh)
+			}
+		}
 	}
 	if xx.IdleW > 0 {
 		hooks.Body = func(s *sim.Session, sh *readlineShell) {
